@@ -1,7 +1,7 @@
 """Property registry: Lean obligations and correspondence streams per property."""
 import os
 
-from . import core, gen_enc, gen_dec
+from . import core, gen_enc, gen_dec, gen_fld
 from .runner import Spec
 
 SPECS = {}
@@ -12,6 +12,8 @@ DEFAULT_NOTE = ("Trusted: Lean 4.33 kernel; axioms propext, Classical.choice, Qu
                 "standard, not present in the sandbox; C++ object lifetime and aliasing are modelled by immutable values.")
 LEVEL_NOTE = {}
 LEVEL_TEXT = {
+    "C11": "Generic theorems get_set_same / get_set_other / set_frame / set_set_comm / set_set_same / set_get_id over `setField`/`getField` (a field = bit range in a big-endian word), for every buffer, every in-range value and ANY disjoint bit range (table field, flag or reserved bits), instantiated for all 16 class tables by kernel-checked table facts (tables_wf, tables_words_ok, tables_alias_overlap) into C11_all_classes; masks_ok ties the library's private mask constants (regenerated from /repo's headers on every run) to the table's bit ranges. Tied to the setters/getters by the `fld` correspondence (every class, every field, all in-range values up to 8/16 bits, zero/ones/random backgrounds, chains) and the table predicate evaluated on the implementation's raw bytes and getters.",
+    "C12": "The model's tables ARE the protocol layout (written from the standard, vlib/layout.py -> Layout.lean); theorems get_is_be / set_is_be say reads and writes are the big-endian value at the table's offset/width/bit position; defaults_ok: default objects are zero apart from the protocol defaults (so reserved bits are zero) and C11_all_classes keeps reserved bits untouched; GenChecks sizes_ok / offsets_ok / masks_ok / enums_ok are `decide` obligations over constants regenerated from /repo's headers on every run (sizeof, offsetof of every member, masks, enum values): a moved member, changed width or mask breaks the build. Behavioural tie: `fld` correspondence in both directions (API write -> raw bytes; hand-laid-out bytes -> getters).",
     "C07": "Theorems C07_frames_wf / C07_C08_bytes / tile_bytes / frame_length / C07_empty: for every encoder state, every batch (payloads 0..65535 bytes) and every configuration with 25 <= max, min <= max, an independent byte-level tiler succeeds on every serialised frame and the decidable predicate P_C07 holds (min <= len <= max, >= 1 message, declared lengths tile the frame, zero padding only up to min, every payload byte exactly once and in order, no frames for an empty batch). Fold invariant over the batch, no bound on sizes. The same P_C07 is evaluated by the Lean driver on the frames the real encoder produced for every generated case.",
     "C08": "Theorem C08_seg_rules (+ C07_C08_bytes on bytes): P_C08 holds for every batch of payloads of 1..65535 bytes and every valid configuration: split iff 16+len exceeds an empty frame, flags first/intermediary*/last, every non-last segment full, a segment alone in its frame, message type of every message = frame header's, batch order, and greedy fill (an unsegmented message starts a new frame of the same type only if it did not fit). P_C08 is also evaluated on the real encoder's frames.",
     "C05": "Theorems reassemble_single / reassemble_many / C05_interleaved on the decoder's reassembly automaton: for any prior state, any number of segments of any sizes (0 allowed), counters mod 65536 incl. the wrap, the message is delivered exactly once at its last frame with the first segment's header, version and type and the concatenated declared bytes (total <= 65535); lifted to any interleaving with arbitrary traffic of other endpoints by the non-interference theorem run_filter. Trailing bytes never enter because the parsed segment is the declared 16+len bytes (walk). Tied to the code by feeding table-built interleavings to the real decoder and comparing every call's output; the predicate (expected packet per last segment, nothing before) is evaluated on the implementation's output.",
@@ -83,6 +85,16 @@ reg(Spec("C17", "Decoder keeps reassembly state only for messages in progress", 
 reg(Spec("C18", "Endpoints are isolated from each other", ["AsamCmp.Props.C18"],
          ["AsamCmp.runT_untag", "AsamCmp.delivered_tagged", "AsamCmp.run_filter", "AsamCmp.C18_isolation", "AsamCmp.decode_foreign_state", "AsamCmp.decode_other_endpoint"], ["AsamCmp.Props.C18"], gen_dec.gen_c18, predicate=gen_dec.pred_c18,
          rule="arbitrary frame histories over 1..4 endpoints sharing device/stream ids, TECMP and short buffers mixed in; the same history projected per endpoint on separate decoders"))
+
+
+reg(Spec("C11", "Setting a field changes that field and nothing else", ["AsamCmp.Props.C11", "AsamCmp.Props.GenChecks"],
+         ["AsamCmp.C11.setField_length", "AsamCmp.C11.get_set_same", "AsamCmp.C11.get_set_other", "AsamCmp.C11.set_frame", "AsamCmp.C11.set_set_comm", "AsamCmp.C11.set_set_same", "AsamCmp.C11.set_get_id", "AsamCmp.C11.tables_wf", "AsamCmp.C11.tables_words_ok", "AsamCmp.C11.tables_alias_overlap", "AsamCmp.C11.C11_all_classes", "AsamCmp.GenChecks.masks_ok"], ["AsamCmp.Props.C11", "AsamCmp.Props.GenChecks"], gen_fld.gen_c11, predicate=gen_fld.pred_c11,
+         rule="every class x every field x {all-zero, all-ones, 2 random} backgrounds x all in-range values (exhaustive for fields <= 8 bits quick / <= 16 bits thorough, boundary + random for wider), chains of 1..8 sets; non-trivial = non-zero background or chain; predicate: raw bytes = background with exactly the written bit ranges replaced, every getter = table read",
+         assumptions=["float fields travel as 32-bit patterns; NaN patterns are excluded from generation"]))
+reg(Spec("C12", "Headers and payload fields use the ASAM CMP / TECMP wire layout", ["AsamCmp.Props.C11", "AsamCmp.Props.GenChecks"],
+         ["AsamCmp.C11.get_is_be", "AsamCmp.C11.set_is_be", "AsamCmp.C11.defaults_ok", "AsamCmp.C11.C11_all_classes", "AsamCmp.C11.tables_wf", "AsamCmp.GenChecks.sizes_ok", "AsamCmp.GenChecks.offsets_ok", "AsamCmp.GenChecks.masks_ok", "AsamCmp.GenChecks.enums_ok"], ["AsamCmp.Props.C11", "AsamCmp.Props.GenChecks"], gen_fld.gen_c12, predicate=gen_fld.pred_c11,
+         rule="default-constructed objects; bytes laid out by hand from the protocol table read through every getter; every field written through the API on a default object compared with the table's big-endian position",
+         assumptions=["float fields travel as 32-bit patterns; NaN patterns are excluded from generation"]))
 
 
 def replay(path):
